@@ -35,6 +35,7 @@ func init() {
 		Families: func(c *mon.Config) []mon.Family {
 			hmax := c.Pick(10, 13)
 			return []mon.Family{
+				{Name: "cold-start", N: 1, Serial: true, Run: c03Cold},
 				{Name: "contract-liveness", N: 1, Run: c03Liveness},
 				{Name: "all-masks-all-nodes", N: (1 << uint(hmax+1)) - 1, Run: c03AllSmall},
 				{Name: "large-heights", N: 20 * c.Pick(200, 20000), Run: c03Large},
@@ -330,4 +331,26 @@ func c03Sequences(w *mon.W, idx int) {
 	w.Sample(func() interface{} {
 		return mon.D{"masks_alternated": []string{fmt.Sprintf("%#b", masks[0]), fmt.Sprintf("%#b", masks[1])}, "calls": 40}
 	})
+}
+
+// c03Cold: the first index calls of the process use the masks and paths that look like "nothing yet"
+// values: mask 1 with the root, the full height-30 mask with the all-right leaf, zero-ish paths.
+func c03Cold(w *mon.W, _ int) {
+	cases := []struct {
+		mask   uint32
+		l      int
+		prefix uint64
+	}{{1<<31 - 1, 30, 1<<30 - 1}, {1, 0, 0}, {1<<31 - 1, 0, 0}, {1 << 30, 30, 0}, {1 << 30, 30, 1<<30 - 1}, {3, 1, 1}, {2, 1, 0}, {1<<30 | 1, 30, 1<<30 - 1}}
+	for _, x := range cases {
+		c := &c03Ctx{w: w, mask: x.mask, h: bmHeight(x.mask)}
+		ok := func() bool {
+			defer c.guard()
+			ei, eh := bmWalkRank(x.mask, c.h, x.l, x.prefix)
+			return c.call(x.l, x.prefix, ei, eh)
+		}()
+		if !ok || w.Failed() {
+			return
+		}
+	}
+	w.Bucket("cold-start")
 }
